@@ -11,6 +11,9 @@ Oracle (independent): clause 7.1 profile checker on the decoded EtsiTs103097Data
 forbidden header fields, signer kind, CAM certificate-inclusion rule from the observed history), immediate acceptance
 when the packet carries the certificate or the ticket is known, acceptance of the sender's next CAM after the
 receiver's request (<= 2 further exchanges), payload delivered unchanged.
+Round 5: receiver CONFIGURATIONS include receive-only stations (VerifyService without SignService: they learn tickets from
+in-message certificates like everybody else); GENERATION POSITIONS of DENMs / generic GeoBroadcast / GeoAnycast messages
+include senders outside their destination area (greedy forwarding at the source), judged on the frame on the medium.
 """
 from __future__ import annotations
 
@@ -224,7 +227,7 @@ class Sim:
             return None, None
         peers = [j for j in range(self.n) if j != k and self.joined(j)]
         if r < 0.6:
-            return [LAT0 + STEP * k, LON0 + STEP * k, rng.choice([50, 500, 2000]), 0], transport
+            return [LAT0 + STEP * k, LON0 + STEP * k, rng.choice([50, 500, 1500]), 0], transport
         if r < 0.8 and peers:
             j = rng.choice(peers)
             return [LAT0 + STEP * j, LON0 + STEP * j, 10, 0], transport
@@ -276,7 +279,9 @@ class Sim:
         frame = frames[0]
         dec = sc.decode_signed(frame[4:]) if frame[0] & 0x0F == 2 else None
         if dec is None:
-            ctx.violation(f"{kind} emitted with security ENABLED is not a decodable secured packet", self.case())
+            where = "" if area is None else (f" ({transport}, sender {'inside' if self.inside(k, area) else 'OUTSIDE'} its destination area)")
+            ctx.violation(f"{kind} of station {k}{where} emitted with security ENABLED is not a decodable secured packet "
+                          f"(Basic Header NH = {frame[0] & 0x0F}): nobody can accept it", self.case())
             return None
         sd, tbs_bytes = dec
         hi = sd["tbsData"]["headerInfo"]
